@@ -4,6 +4,11 @@ import (
 	"context"
 	"encoding/json"
 	"fmt"
+	"github.com/coder/websocket"
+	"net"
+	"net/http"
+	"os"
+	"path/filepath"
 	"reflect"
 	"strings"
 	"sync"
@@ -226,12 +231,13 @@ func C19(run *core.Run) {
 			return s
 		}
 		randomMsg := func(rr func(int) int, k int) mocrelay.ClientMsg {
-			subs := []string{"a", "b", "rej:c", ""} // the empty subscription id passes the admission gate
+			long := strings.Repeat("L", 64)                                 // two ids that agree in their first 64 bytes are two subscriptions
+			subs := []string{"a", "b", "rej:c", "", long + "a", long + "b"} // the empty subscription id passes the admission gate
 			switch rr(8) {
 			case 0, 1, 2:
 				return &mocrelay.ClientReqMsg{SubscriptionID: subs[rr(len(subs))], ReqFilters: []*mocrelay.ReqFilter{{}}}
 			case 3:
-				return &mocrelay.ClientCloseMsg{SubscriptionID: []string{"a", "b", "never", ""}[rr(4)]}
+				return &mocrelay.ClientCloseMsg{SubscriptionID: []string{"a", "b", "never", "", strings.Repeat("L", 64) + "a"}[rr(5)]}
 			case 4:
 				return &mocrelay.ClientCloseMsg{SubscriptionID: "srv:" + []string{"a", "b", ""}[rr(3)]}
 			case 5:
@@ -369,6 +375,11 @@ func C19(run *core.Run) {
 		distinct.Add(tr.Name)
 		traces = append(traces, tr)
 	}
+	// the middleware behind the real Relay, served over a unix socket: every peer has the same remote address
+	if tr, ok := metricsOverUnixSocket(run); ok {
+		traces = append(traces, tr)
+		distinct.Add(tr.Name)
+	}
 	out, err := tv.ValidateChunks(metricsTraceSpec, nil, traces, 6, 100, 8)
 	if out != nil {
 		run.Add("traces_validated_against_impl", int64(out.Accepted+len(out.Rejects)))
@@ -412,4 +423,85 @@ func C19(run *core.Run) {
 	run.Set("evaluations", run.Get("steps")+run.Get("observations"))
 	run.Set("distinct_nontrivial", distinct.Len())
 	run.Assume = append(run.Assume, "observations are taken only when every session is between steps (quiescent)")
+}
+
+// metricsOverUnixSocket: NewRelay(prometheus(scriptHandler)) served on a unix socket, two WebSocket
+// sessions alive at the same time; REQs, then the sessions end one after the other.
+func metricsOverUnixSocket(run *core.Run) (tv.Trace, bool) {
+	tr := tv.Trace{Name: "metrics-unix-socket"}
+	dir, err := os.MkdirTemp("", "verif-c19-")
+	if err != nil {
+		run.Problem("tmp dir: %v", err)
+		return tr, false
+	}
+	defer os.RemoveAll(dir)
+	path := filepath.Join(dir, "relay.sock")
+	l, err := net.Listen("unix", path)
+	if err != nil {
+		run.Problem("unix listener: %v", err)
+		return tr, false
+	}
+	reg := prometheus.NewRegistry()
+	opt := mocrelay.NewDefaultRelayOption()
+	opt.RecvRateLimitRate = 1e9
+	opt.RecvRateLimitBurst = 1 << 30
+	relay := mocrelay.NewRelay(mocrelay.Middleware(mocprom.NewPrometheusMiddleware(reg))(&scriptHandler{}), opt)
+	srv := &http.Server{Handler: relay}
+	go srv.Serve(l)
+	defer srv.Close()
+	client := &http.Client{Transport: &http.Transport{DialContext: func(ctx context.Context, _, _ string) (net.Conn, error) {
+		return (&net.Dialer{}).DialContext(ctx, "unix", path)
+	}}}
+	ctx, cancel := context.WithTimeout(context.Background(), 20*time.Second)
+	defer cancel()
+	tr.Lines = append(tr.Lines, map[string]any{"op": "reset"})
+	observe := func(what string, want func(conn int64) bool) {
+		var line map[string]any
+		for dl := time.Now().Add(3 * time.Second); ; time.Sleep(2 * time.Millisecond) {
+			line, err = gatherLine(reg)
+			if err != nil {
+				run.Problem("gather: %v", err)
+				return
+			}
+			if want(line["conn"].(int64)) || time.Now().After(dl) {
+				break
+			}
+		}
+		line["shape"] = "observe " + what
+		tr.Lines = append(tr.Lines, line)
+		run.Add("observations", 1)
+	}
+	var conns []*websocket.Conn
+	for i, subs := range [][]string{{"a"}, {"b", "c"}} {
+		c, _, err := websocket.Dial(ctx, "ws://relay/", &websocket.DialOptions{HTTPClient: client})
+		if err != nil {
+			run.Problem("dial over the unix socket: %v", err)
+			return tr, false
+		}
+		defer c.CloseNow()
+		conns = append(conns, c)
+		name := fmt.Sprintf("u%d", i)
+		tr.Lines = append(tr.Lines, map[string]any{"op": "start", "s": name, "shape": "start"})
+		for _, sub := range subs {
+			if err := c.Write(ctx, websocket.MessageText, []byte(fmt.Sprintf(`["REQ",%q,{}]`, sub))); err != nil {
+				run.Problem("write over the unix socket: %v", err)
+				return tr, false
+			}
+			if _, _, err := c.Read(ctx); err != nil { // the EOSE
+				run.Problem("read over the unix socket: %v", err)
+				return tr, false
+			}
+			tr.Lines = append(tr.Lines, map[string]any{"op": "cmsg", "s": name, "type": "REQ", "kind": "k0", "sub": sub, "shape": "cmsg REQ"},
+				map[string]any{"op": "smsg", "s": name, "type": "EOSE", "sub": sub, "shape": "smsg EOSE"})
+			run.Add("steps", 1)
+		}
+	}
+	observe("two sessions over a unix socket", func(c int64) bool { return c == 2 })
+	conns[0].Close(websocket.StatusNormalClosure, "")
+	tr.Lines = append(tr.Lines, map[string]any{"op": "end", "s": "u0", "shape": "end"})
+	observe("after end (unix socket)", func(c int64) bool { return c == 1 })
+	conns[1].Close(websocket.StatusNormalClosure, "")
+	tr.Lines = append(tr.Lines, map[string]any{"op": "end", "s": "u1", "shape": "end"})
+	observe("all sessions ended (unix socket)", func(c int64) bool { return c == 0 })
+	return tr, true
 }
